@@ -8,9 +8,21 @@
 // is fed to Circuit::legalize with parameters from the whole accepted range (orderingWidth in
 // [-1,2]) — ops `legalize` then `again` — and compared with the Lean model line for line.
 //
+// A third stream ("tall") draws |orderingHeight| = 2^10 … 2^40 (both signs; LegalizationParameters::check
+// does not bound it), orderingY near the ends of its accepted range and orderingWidth in [0,1], on
+// directly constructed legal placements (a quarter of the cases) and on outputs of legalization run with
+// those same parameters (an eighth): the binary32 ordering keys then tie or invert (KF-C11-2).
+//
 // Direct oracle: the call returns and no movable cell changes x or y, neither the first nor the
-// second time.  Classifier of known finding KF-C11-1 (`ordering_width_outside_unit_interval`):
-// the run's orderingWidth is outside [0,1]; a moved cell with orderingWidth in [0,1] is a violation.
+// second time.  Classifiers, both computed from the input alone:
+//   KF-C11-1 (`ordering_width_outside_unit_interval`): the run's orderingWidth is outside [0,1];
+//   KF-C11-2 (`rounded_ordering_keys_tie_or_invert`): with the ordering keys computed exactly as
+//     LegalizerBase::computeCellOrder does (binary32, same expression order), two movable cells of one
+//     free row segment, a entirely left of b, have key(a) > key(b), or key(a) == key(b) and
+//     index(a) > index(b) (index = position among the movable cells, what the sort compares).
+// A moved cell in a run where neither applies is a VIOLATION.
+#include <map>
+
 #include "legalize_common.hpp"
 
 using namespace coloquinte;
@@ -25,6 +37,86 @@ static bool samePositions(const Circuit &a, const std::string &sol) {
     if (x != a.cellX()[i] || y != a.cellY()[i]) return false;
   }
   return true;
+}
+
+// ---- KF-C11-2 classifier -------------------------------------------------------------------
+// The key of LegalizerBase::computeCellOrder(1.0, orderingWidth, orderingY, orderingHeight):
+//   float val = weightX * x + weightWidth * w + weightY * y + weightHeight * h;
+// with float weights (the double parameters are narrowed at the call) and int data converted to
+// float; every product and sum is rounded to binary32 (volatile stores: no excess precision, no
+// contraction), left to right.
+static float kf2Key(const lg::LParams &lp, int x, int y, int w, int h) {
+  volatile float wX = (float)1.0, wW = (float)lp.ow, wY = (float)lp.oy, wH = (float)lp.oh;
+  volatile float fx = (float)x, fw = (float)w, fy = (float)y, fh = (float)h;
+  volatile float t1 = wX * fx;
+  volatile float t2 = wW * fw;
+  volatile float s1 = t1 + t2;
+  volatile float t3 = wY * fy;
+  volatile float s2 = s1 + t3;
+  volatile float t4 = wH * fh;
+  volatile float s3 = s2 + t4;
+  return s3;
+}
+
+struct Kf2 {
+  bool segment = false;  // the classifier of KF-C11-2: an inverted pair inside one free row segment
+  bool row = false;      // the same over all pairs of one row y (superset; the class of the Lean theorem)
+  bool tie = false;      // some same-row pair has equal keys
+  bool strictInversion = false;  // some same-row pair a left of b has key(a) > key(b)
+};
+
+static Kf2 kf2Applies(const Circuit &L, const lg::LParams &lp) {
+  struct M { int idx; long long x, y, w, h; float key; int seg; };
+  std::vector<M> ms;
+  std::vector<vc::Seg> segs;
+  std::vector<long long> segY;
+  for (const Row &r : L.rows())
+    for (auto &sg : vc::freeSegments(L, r)) { segs.push_back(sg); segY.push_back(r.minY); }
+  int k = 0;
+  for (int i = 0; i < L.nbCells(); ++i) {
+    if (L.isFixed(i)) continue;
+    Rectangle p = L.placement(i);
+    M m;
+    m.idx = k++;
+    m.x = p.minX; m.y = p.minY; m.w = p.width(); m.h = p.height();
+    m.key = kf2Key(lp, p.minX, p.minY, p.width(), p.height());
+    m.seg = -1;
+    for (size_t sgi = 0; sgi < segs.size(); ++sgi)
+      if (segY[sgi] == m.y && segs[sgi].lo <= m.x && m.x + m.w <= segs[sgi].hi) { m.seg = sgi; break; }
+    ms.push_back(m);
+  }
+  Kf2 r;
+  for (const M &a : ms)
+    for (const M &b : ms) {
+      if (a.y != b.y || a.h != b.h || a.w <= 0 || b.w <= 0 || a.x + a.w > b.x) continue;
+      // a is entirely left of b in the same row
+      if (a.key == b.key) r.tie = true;
+      if (a.key > b.key) r.strictInversion = true;
+      bool inverted = a.key > b.key || (a.key == b.key && a.idx > b.idx);
+      if (!inverted) continue;
+      r.row = true;
+      if (a.seg >= 0 && a.seg == b.seg) r.segment = true;
+    }
+  return r;
+}
+
+// legalization parameters of the "tall" stream
+static lg::LParams genTallParams(vh::Rng &g) {
+  lg::LParams l;
+  static const std::vector<double> odd = {0.3, 0.77, 0.999, 1e-3, 0.5000001, 1.0 / 3};
+  if (g.chance(1, 4)) l.ow = g.pick(odd); else l.ow = g.range(0, 8) / 8.0;  // in [0,1]: KF-C11-1 does not apply
+  if (g.chance(1, 12)) l.ow = g.chance(1, 2) ? 2.0 : -0.5;                 // a few with both classes
+  int e = g.range(10, 40);
+  double mant = 1.0;
+  int mk = g.range(0, 3);
+  if (mk == 1) mant = 1.0 + g.range(0, 15) / 16.0;
+  else if (mk == 2) mant = 1.0 + g.range(0, (1 << 30) - 1) / (double)(1 << 30);  // not a binary32 value: narrowed at the call
+  l.oh = std::ldexp(mant, e) * (g.chance(1, 2) ? -1.0 : 1.0);
+  int yk = g.range(0, 5);
+  if (yk == 0) l.oy = 0.2; else if (yk == 1) l.oy = -0.2; else if (yk == 2) l.oy = g.pick(odd) * 0.2;
+  else if (yk == 3) l.oy = (g.chance(1, 2) ? -1 : 1) * (0.2 - g.range(0, 64) / 4096.0); else if (yk == 4) l.oy = g.range(-12, 12) / 64.0;
+  else l.oy = 0.0;
+  return l;
 }
 
 // Source B: a legal placement built directly.
@@ -105,17 +197,27 @@ static Circuit genLegalDirect(vh::Rng &g, long long S) {
 
 struct Runner {
   vh::Out &out;
+  std::map<std::string, int> kfWritten;
   explicit Runner(vh::Out &o) : out(o) {}
+
+  // vh::Out drops oracle lines after the 200th failure: write at most 60 lines per known finding
+  // (all of them are counted in the distribution) so that a violation can never be dropped.
+  void fail(const std::string &id, const std::string &what, const std::string &text, const std::string &kf) {
+    if (!kf.empty() && ++kfWritten[kf] > 60) { out.count("oracle_lines_not_written_" + kf); return; }
+    out.fail(id, what, text, kf);
+  }
 
   // L must be a legal single-row placement
   void run(const std::string &id, const Circuit &L, const lg::LParams &lp, const std::string &stream) {
     std::string text = lg::caseText(L, lp);
     lg::Facts f = lg::facts(L);
     bool unit = lp.ow >= 0.0 && lp.ow <= 1.0;
-    std::string kf = unit ? "" : "KF-C11-1";
+    Kf2 k2 = kf2Applies(L, lp);
+    // both classifiers are evaluated on the input, before the code runs
+    std::string kf = !unit ? "KF-C11-1" : (k2.segment ? "KF-C11-2" : "");
     out.evaluations++;
-    out.ops << "case " << id << "\n" << text << "order\nlegalize\nagain\n";
-    out.impl << "case " << id << "\n";
+    out.ops << "case " << id << "\n" << text << "kf2\norder\nlegalize\nagain\n";
+    out.impl << "case " << id << "\nkf2 " << (k2.row ? 1 : 0) << " " << (k2.segment ? 1 : 0) << "\n";
     lg::RunResult r1 = lg::runLegalize(L, lp, true);
     if (r1.status != "ok" || r1.answer.empty()) {
       out.impl << r1.order << "\ncrash:" << r1.status << "\ncrash\n";
@@ -126,14 +228,14 @@ struct Runner {
     bool threw1 = r1.answer.rfind("throw:", 0) == 0;
     bool moved = false;
     if (threw1) {
-      out.fail(id, "legalize threw on an already legal placement", text, kf);
+      fail(id, "legalize threw on an already legal placement", text, kf);
       out.impl << "throw:runtime_error\n";  // model: `again` re-runs on the unchanged circuit
       // (the real code is deterministic: same input, same throw)
       moved = true;
     } else {
       if (!samePositions(L, r1.answer)) {
         moved = true;
-        out.fail(id, "a cell of an already legal placement moved: " + vc::solutionString(L) + " -> " + r1.answer, text, kf);
+        fail(id, "a cell of an already legal placement moved: " + vc::solutionString(L) + " -> " + r1.answer, text, kf);
       }
       Circuit L2(0);
       lg::LParams dummy;
@@ -142,12 +244,27 @@ struct Runner {
       out.impl << (r2.status == "ok" ? r2.answer : "crash:" + r2.status) << "\n";
       if (r2.status != "ok") out.fail(id, "second legalize: child " + r2.status, text);
       else if (r2.answer != r1.answer) {
-        out.fail(id, "legalizing twice differs from legalizing once: " + r1.answer + " -> " + r2.answer, text, kf);
+        fail(id, "legalizing twice differs from legalizing once: " + r1.answer + " -> " + r2.answer, text, kf);
       }
     }
     out.count("stream_" + stream);
     out.count(unit ? "ow_in_unit_interval" : "ow_outside_unit_interval");
-    out.count(moved ? (unit ? "moved_unit_VIOLATION" : "moved_outside_unit_KF") : "stable");
+    // "cells moved" must imply that KF-C11-1 or KF-C11-2 applies
+    out.count(moved ? (!unit ? "moved_KF-C11-1_ow_outside_unit" : (k2.segment ? "moved_KF-C11-2_key_tie_or_inversion" : "moved_unclassified_VIOLATION"))
+                    : "stable");
+    if (unit) out.count(k2.segment ? (moved ? "kf2_applies_moved" : "kf2_applies_stable") : (moved ? "kf2_not_applies_moved_VIOLATION" : "kf2_not_applies_stable"));
+    if (k2.row && !k2.segment) out.count(moved ? "kf2_cross_segment_inversion_only_moved" : "kf2_cross_segment_inversion_only_stable");
+    if (unit && k2.strictInversion) out.count("kf2_strict_key_inversion_with_ow_in_unit");  // impossible for |v| <= 2^24 (order_never_inverted_binary32)
+    if (k2.tie) out.count("keys_tie_in_some_row");
+    {
+      double m = std::fabs(lp.oh);
+      int e = 0;
+      if (m > 0) std::frexp(m, &e);
+      char b[48];
+      if (m >= 1024.0) { snprintf(b, sizeof b, "oh_abs_2^%02d..2^%02d", (e - 1) / 5 * 5, (e - 1) / 5 * 5 + 5); out.count(b); out.count(lp.oh < 0 ? "oh_large_negative" : "oh_large_positive"); }
+      else out.count("oh_abs_below_2^10");
+      if (std::fabs(lp.oy) >= 0.18) out.count("oy_near_range_end");
+    }
     out.count("cells_movable", f.nMov);
     out.count("cells_polarised", f.nPol);
     out.count("cells_turned", f.nTurned);
@@ -168,7 +285,8 @@ struct Runner {
 int main(int argc, char **argv) {
   vh::Args a = vh::parseArgs(argc, argv);
   vh::Out out(a.out);
-  out.rule = "a case = legal single-row placement (checked by the independent legality oracle) + legalization parameters; "
+  out.rule = "a case = legal single-row placement (checked by the independent legality oracle) + legalization parameters "
+             "(a quarter of the cases with |orderingHeight| in 2^10..2^40, where the binary32 keys tie: KF-C11-2); "
              "non-trivial = at least two movable cells share a row y (their relative order must be kept); distinct by case text";
   Runner r(out);
   auto fromFile = [&](const std::string &p, const std::string &id, const std::string &stream) {
@@ -187,6 +305,11 @@ int main(int argc, char **argv) {
   }
   if (!a.corpus.empty()) {
     long long before = out.failures;
+    if (fromFile(a.corpus + "/kf2.json", "kf2", "corpus")) {
+      out.count(out.failures > before ? "kf2_witness_still_fails" : "kf2_witness_no_longer_fails");
+      if (out.failures == before) out.notes.push_back("KF-C11-2 witness corpus/C11/kf2.json no longer fails (the finding may have been repaired)");
+    }
+    before = out.failures;
     if (fromFile(a.corpus + "/kf1.json", "kf1", "corpus")) {
       out.count(out.failures > before ? "kf1_witness_still_fails" : "kf1_witness_no_longer_fails");
       if (out.failures == before) out.notes.push_back("KF-C11-1 witness corpus/C11/kf1.json no longer fails (the finding may have been repaired)");
@@ -199,7 +322,14 @@ int main(int argc, char **argv) {
     vh::Rng g = vh::Rng::forCase(a.seed, i);
     static const std::vector<long long> scales = {1, 1, 1, 3, 1000, 4096, 20000};
     lg::LParams lp = lg::genLParams(g, g.chance(1, 2));
-    if (i % 2 == 0) {
+    if (i % 4 == 3) {
+      // C: huge |orderingHeight| (2^10..2^40), orderingY near the ends of its range, orderingWidth in [0,1]
+      lg::LParams tall = genTallParams(g);
+      long long S = g.pick(scales);
+      Circuit L = genLegalDirect(g, S);
+      if (!vc::checkLegal(L, true).empty()) { out.count("source_B_not_legal_BUG"); continue; }
+      r.run(std::to_string(i), L, tall, "tall_ordering_height");
+    } else if (i % 2 == 0) {
       // A: output of legalization
       vc::GenOpts o;
       o.multiRow = false;
@@ -211,6 +341,8 @@ int main(int argc, char **argv) {
       if (a.thorough() && g.chance(1, 3)) { o.maxCells = 50; o.maxRows = 10; }
       Circuit c = vc::genCircuit(g, o);
       lg::LParams first = lg::genLParams(g, false);
+      bool tallA = i % 8 == 4;  // an eighth of the cases: legalize with a huge orderingHeight, then again
+      if (tallA) first = genTallParams(g);
       lg::RunResult r0 = lg::runLegalize(c, first, false);
       if (r0.status != "ok" || r0.answer.rfind("sol", 0) != 0) { out.count("source_A_first_legalize_failed"); continue; }
       Circuit L(0);
@@ -218,7 +350,8 @@ int main(int argc, char **argv) {
       lg::parseCase(r0.after + lg::paramsLine(first) + "\n", L, dummy);
       if (!vc::checkLegal(L, true).empty()) { out.count("source_A_output_not_legal_skipped"); continue; }
       // usually re-legalize with the same parameters ("legalizing twice"), sometimes with others
-      r.run(std::to_string(i), L, g.chance(1, 2) ? first : lp, "from_legalize");
+      if (tallA) r.run(std::to_string(i), L, first, "from_legalize_tall_ordering_height");
+      else r.run(std::to_string(i), L, g.chance(1, 2) ? first : lp, "from_legalize");
     } else {
       long long S = g.pick(scales);
       Circuit L = genLegalDirect(g, S);
@@ -226,6 +359,8 @@ int main(int argc, char **argv) {
       r.run(std::to_string(i), L, lp, S > 1 ? "direct_scaled" : "direct");
     }
   }
+  if (!r.kfWritten.empty())
+    out.notes.push_back("at most 60 oracle lines are written per known finding; all hits are counted in the distribution (moved_KF-*)");
   out.finish();
   return 0;
 }
